@@ -91,7 +91,7 @@ Definition check_struct_files (c : struct_case) : bool :=
   let sc := count_structs (st_labels c) in
   let w := fun ctr : counter FNum => write_file (tbl_repr (st_repr c)) (calc_probs ctr) in
   str_eqb (w (with_markov (O := FNum) (st_cov c) (st_n c) (of_counts (sc_base sc)))) (st_grammar c) &&
-  f64_wf_hyps (with_markov (O := FNum) (st_cov c) (st_n c) (of_counts (sc_base sc))) &&
+  (let b := with_markov (O := FNum) (st_cov c) (st_n c) (of_counts (sc_base sc)) in is_nil b || f64_wf_hyps b) &&
   str_eqb (w (@of_counts FNum (sc_raw sc))) (st_raw c) &&
   str_eqb (w (@of_counts FNum (sc_prince sc))) (st_prince c).
 
